@@ -155,10 +155,10 @@ class Report:
                 hist[k] = hist.get(k, 0) + 1
             for k, n in sorted(hist.items(), key=lambda kv: -kv[1])[:60]:
                 print(f"  SIG x{n}: {k}", flush=True)
-        if self.harness_errors:
+        if self.violations:
+            code = EXIT_VIOLATION  # replayed and confirmed on the real code: reported even if another obligation had a harness error
+        elif self.harness_errors:
             code = EXIT_HARNESS
-        elif self.violations:
-            code = EXIT_VIOLATION
         else:
             code = EXIT_OK
         print(
